@@ -165,6 +165,9 @@ func depOn(t *rapid.T, r *Reg) (DepSpec, bool) {
 	}
 	p := rapid.SampledFrom(ps).Draw(t, "depOnIdent")
 	d := DepSpec{T: p.Ident.T, Key: p.Ident.Key, Group: p.Ident.Group}
+	if d.Group != "" && rapid.IntRange(0, 3).Draw(t, "groupAndName") == 0 {
+		d.Key = "alsonamed" // a group field that also carries a name tag: filled from the group, the name is ignored
+	}
 	if rapid.IntRange(0, 5).Draw(t, "depOnOpt") == 0 {
 		d.Optional = true
 	}
